@@ -39,12 +39,25 @@ func usePositiveTypes() {
 	peekTypes = map[byte]lexer.TokenType{'N': 'N', 'E': 'E', 'X': 1000, '$': lexer.EOF}
 }
 
+// useOddTypes: the elided type is 0 (the zero value of TokenType, e.g. iota-numbered types), the other elided type lies far
+// below -64 (a lexer with many rules), and EOF itself is named in the elision set (it must still end the stream).
+var elideEOF bool
+
+func useOddTypes() {
+	peekTypes = map[byte]lexer.TokenType{'N': -70, 'E': 0, 'X': -100, '$': lexer.EOF}
+	elideEOF = true
+}
+
 func peekLexer(kinds string) (*lexer.PeekingLexer, []lexer.Token) {
 	toks := make([]lexer.Token, len(kinds))
 	for i := 0; i < len(kinds); i++ {
 		toks[i] = lexer.Token{Type: peekTypes[kinds[i]], Value: strconv.Itoa(i + 1), Pos: lexer.Position{Offset: i}}
 	}
-	pl, _ := lexer.Upgrade(&sliceLexer{t: toks}, peekTypes['E'], peekTypes['X'])
+	el := []lexer.TokenType{peekTypes['E'], peekTypes['X']}
+	if elideEOF {
+		el = append(el, lexer.EOF)
+	}
+	pl, _ := lexer.Upgrade(&sliceLexer{t: toks}, el...)
 	return pl, toks
 }
 
@@ -194,6 +207,9 @@ func replayEdge(f []string) (msg string) {
 
 // peek-replay <edges file>: one "a|b|..." record per line (EDGE prefix stripped)
 func peekReplay(args []string) error {
+	if len(args) > 1 && args[1] == "odd" {
+		useOddTypes()
+	}
 	if len(args) > 1 && args[1] == "positive" {
 		usePositiveTypes()
 	}
@@ -232,8 +248,10 @@ func peekRecord(args []string) error {
 	ntraces, _ := strconv.Atoi(args[1])
 	maxlen, _ := strconv.Atoi(args[2])
 	steps, _ := strconv.Atoi(args[3])
-	if seed%2 == 1 {
-		usePositiveTypes() // every other batch of traces uses rune-style token types
+	if seed%3 == 1 {
+		usePositiveTypes() // every third batch of traces uses rune-style token types
+	} else if seed%3 == 2 {
+		useOddTypes()
 	}
 	rng := rand.New(rand.NewSource(int64(seed)))
 	w := bufio.NewWriter(os.Stdout)
@@ -255,7 +273,21 @@ func peekRecord(args []string) error {
 		}
 		b[n] = '$'
 		ks[n] = "EOF"
-		pl, toks := peekLexer(string(b))
+		var pl *lexer.PeekingLexer
+		var toks []lexer.Token
+		func() {
+			defer func() {
+				if r := recover(); r != nil {
+					pl = nil
+				}
+			}()
+			pl, toks = peekLexer(string(b))
+		}()
+		if pl == nil {
+			// constructing the lexer (lexer.Upgrade) panicked: a trace whose first observation no specification state matches
+			enc.Encode(map[string]any{"ev": "reset", "toks": ks, "ret": 0, "a": 0, "b": 0, "m": "Upgrade panicked", "raw": -1, "peek": -1, "cur": -1})
+			continue
+		}
 		ev := func(name string, ret, a, bb int, m string) {
 			o := observe(pl)
 			enc.Encode(map[string]any{"ev": name, "ret": ret, "a": a, "b": bb, "m": m, "raw": o.raw, "peek": o.nxt, "cur": o.cur})
